@@ -701,7 +701,7 @@ def explore(ctx, prop_id, budget_quick=20.0, budget_thorough=150.0, race=True):
             break
     i = 0
     while not ctx.stop() and time.time() - t0 < budget:
-        lines = gen_case(ctx.rng, race=race)
+        lines = gen_case(ctx.rng, race=race, strand=True)   # F29 repaired: quit() with functors still queued is inside the usage
         flav = flavours[i % len(flavours)]
         run_case(ctx, exes[flav], lines, "generated", flav)
         i += 1
